@@ -77,7 +77,7 @@ class Profile:
     keys: list = field(default_factory=lambda: list(KEYS))
     filters: list = field(default_factory=lambda: sorted(FILTER_ARGS))
     extra_filters: bool = False
-    text_alphabet: list = field(default_factory=lambda: ["a", "b", " ", "\n", "x", "-", ".", "é"])
+    text_alphabet: list = field(default_factory=lambda: ["a", "b", " ", "\n", "x", "-", ".", "é", "a", " ", "\n", "x", "\r", "\u2028", "\x0c"])
     str_alphabet: list = field(default_factory=lambda: ["a", "b", " ", "x", "1", ",", "-"])
     partials: list = field(default_factory=list)  # names of available partial templates
     ternary: bool = False
@@ -100,6 +100,7 @@ class Profile:
     in_partial: str = ""  # "render": generating a body that may be rendered (include is forbidden there)
     dynamic_partial_names: bool = True
     max_path_segments: int = 3
+    loop_arg_commas: bool = True  # comma separated / reordered limit, offset, cols, reversed
 
 
 class Gen:
@@ -344,6 +345,9 @@ class Gen:
         for _ in range(self.pick([1, 1, 2, 3])):
             vals = [self.primitive() for _ in range(self.pick([1, 1, 2, 3]))]
             whens.append({"vals": vals, "sep": self.pick([",", "or"]), "body": self.block(depth - 1, in_loop, line_mode)})
+        if self.chance(0.2):
+            # an else block that is not last (the position of else is meaningful: whens after it are still tested)
+            whens.insert(self.r.randrange(len(whens)), {"else": True, "vals": [], "sep": ",", "body": self.block(depth - 1, in_loop, line_mode)})
         return {
             "k": "case",
             "e": self.primitive(),
@@ -352,6 +356,10 @@ class Gen:
         }
 
     def _loop_args(self, node: dict) -> None:
+        if self.p.loop_arg_commas:
+            node["argsep"] = self.pick(["", "", "", ",", ",+"])
+            if self.chance(0.3):
+                node["argorder"] = self.r.sample(range(4), 4)
         if self.chance(0.3):
             node["?limit"] = self.primitive("int")
         if self.chance(0.3):
@@ -573,16 +581,27 @@ def _tag(d: Delims, body: str, ws: Optional[list] = None) -> str:
 
 def loop_expr_src(n: Any) -> str:
     s = f"{n['var']} in {expr_src(n['iter'])}"
+    args = []
     if n.get("?limit") is not None:
-        s += f" limit: {expr_src(n['?limit'])}"
+        args.append(f"limit: {expr_src(n['?limit'])}")
     if n.get("?offset") is not None:
         off = n["?offset"]
-        s += " offset: " + ("continue" if off == "continue" else expr_src(off))
+        args.append("offset: " + ("continue" if off == "continue" else expr_src(off)))
     if n.get("?cols") is not None:
-        s += f" cols: {expr_src(n['?cols'])}"
+        args.append(f"cols: {expr_src(n['?cols'])}")
     if n.get("rev"):
-        s += " reversed"
-    return s
+        args.append("reversed")
+    order = n.get("argorder")
+    if order and len(order) >= len(args):
+        args = [args[i] for i in sorted(range(len(args)), key=lambda i: order[i])]
+    sep = n.get("argsep") or ""
+    if not args:
+        return s
+    if sep == ",":
+        return s + " " + ", ".join(args)
+    if sep == ",+":
+        return s + ", " + ", ".join(args)
+    return s + " " + " ".join(args)
 
 
 def partial_expr_src(n: Any) -> str:
@@ -630,6 +649,9 @@ def node_src(n: Any, d: Delims = DEFAULT) -> str:  # noqa: PLR0911, PLR0912
     if k == "case":
         s = _tag(d, f"case {expr_src(n['e'])}")
         for w in n["whens"]:
+            if w.get("else"):
+                s += _tag(d, "else") + block_src(w["body"], d)
+                continue
             sep = ", " if w["sep"] == "," else " or "
             s += _tag(d, "when " + sep.join(expr_src(x) for x in w["vals"])) + block_src(w["body"], d)
         if n.get("?else") is not None:
@@ -714,6 +736,9 @@ def line_src(n: Any, d: Delims = DEFAULT) -> list:  # noqa: PLR0911, PLR0912
     if k == "case":
         out = [f"case {expr_src(n['e'])}"]
         for w in n["whens"]:
+            if w.get("else"):
+                out += ["else", *body(w["body"])]
+                continue
             sep = ", " if w["sep"] == "," else " or "
             out += ["when " + sep.join(expr_src(x) for x in w["vals"]), *body(w["body"])]
         if n.get("?else") is not None:
